@@ -930,6 +930,163 @@ func pqHandover(seed int64, cfg pqengine.Config, rounds int) []string {
 	return fails
 }
 
+// c12FillLevels: a fresh queue is filled by ONE flush to every fill level around "data area completely used, meta
+// area still minimal"; then every event is read and ACKed one by one (ACKs that free no page, ACKs that free one),
+// an event that did not fit is flushed afterwards, and the queue is reopened and used again.
+func c12FillLevels(rep *Report) {
+	for _, c := range []struct{ ps, pages, ev int }{{4096, 16, 1000}, {1024, 64, 250}, {4096, 17, 3000}} {
+		perPage := (c.ps - 28) / (c.ev + 4)
+		lo := (c.pages-8)*perPage - 2
+		for k := lo; k <= (c.pages-1)*perPage+2; k++ {
+			func() {
+				d := simdisk.New("fill")
+				f, err := txfile.VerifOpen(d, txfile.Options{PageSize: uint32(c.ps), MaxSize: uint64(c.pages * c.ps)})
+				if err != nil {
+					return
+				}
+				defer f.Close()
+				del, err := pq.NewStandaloneDelegate(f)
+				if err != nil {
+					return
+				}
+				q, err := pq.New(del, pq.Settings{WriteBuffer: uint(2 * c.pages * c.ps)})
+				if err != nil {
+					return
+				}
+				defer q.Close()
+				w, _ := q.Writer()
+				for i := 0; i < k; i++ {
+					w.Write(pqengine.Content(i, 3, c.ev))
+					w.Next()
+				}
+				rep.Evaluations++
+				if err := w.Flush(); err != nil {
+					rep.count("fill-levels:first-flush-does-not-fit", 1)
+					return
+				}
+				rep.count("fill-levels:runs", 1)
+				rep.nontrivial(fmt.Sprintf("fill/%d/%d/%d", c.ps, c.pages, k))
+				fail := func(sig, format string, a ...interface{}) {
+					rep.violate(Violation{Kind: "oracle", Sig: "fill-levels/" + sig,
+						Detail: fmt.Sprintf("file of %d pages of %d bytes, %d events of %d bytes in one flush: ", c.pages, c.ps, k, c.ev) + fmt.Sprintf(format, a...),
+						Replay: map[string]interface{}{"scenario": "fill-levels", "page_size": c.ps, "pages": c.pages, "events": k, "event_size": c.ev}})
+				}
+				// one more event that (probably) does not fit any more
+				w.Write(pqengine.Content(k, 3, c.ev))
+				w.Next()
+				extraFlushed := w.Flush() == nil
+				rd := q.Reader()
+				for i := 0; i < k; i++ {
+					if err := rd.Begin(); err != nil {
+						fail("begin", "Reader.Begin before event %d: %v", i, err)
+						return
+					}
+					sz, err := rd.Next()
+					if err != nil || sz != c.ev {
+						rd.Done()
+						fail("next", "Reader.Next for event %d: size %d, %v", i, sz, err)
+						return
+					}
+					buf := make([]byte, sz)
+					if n, err := rd.Read(buf); err != nil || n != sz || !bytes.Equal(buf, pqengine.Content(i, 3, c.ev)) {
+						rd.Done()
+						fail("read", "event %d read back differs (%d bytes, %v)", i, n, err)
+						return
+					}
+					rd.Done()
+					if err := q.ACK(1); err != nil {
+						fail("ack-on-a-full-file", "ACK(1) of event %d fails: %v", i, err)
+						return
+					}
+				}
+				if !extraFlushed {
+					if err := w.Flush(); err != nil {
+						fail("flush-after-drain", "after everything was ACKed the buffered event still can not be flushed: %v", err)
+						return
+					}
+				}
+				if p, err := q.Pending(); err != nil || p != 1 {
+					fail("pending", "Pending() = %d (%v), expected the one event flushed last", p, err)
+				}
+			}()
+		}
+	}
+}
+
+// c12DrainThenFlush: the producer writes until the queue reports the file full (complete events stay in the write
+// buffer), the consumer reads and ACKs everything that was flushed; then the buffered events must be flushable.
+func c12DrainThenFlush(rep *Report) {
+	for _, c := range []struct{ ps, pages, wbuf, ev int }{{4096, 16, 16 * 1024, 5000}, {4096, 32, 16 * 1024, 5000}, {1024, 64, 8 * 1024, 700}, {4096, 24, 32 * 1024, 9000}} {
+		func() {
+			d := simdisk.New("drain")
+			f, err := txfile.VerifOpen(d, txfile.Options{PageSize: uint32(c.ps), MaxSize: uint64(c.pages * c.ps)})
+			if err != nil {
+				return
+			}
+			defer f.Close()
+			del, err := pq.NewStandaloneDelegate(f)
+			if err != nil {
+				return
+			}
+			var flushed int64
+			q, err := pq.New(del, pq.Settings{WriteBuffer: uint(c.wbuf), Flushed: func(n uint) { atomic.AddInt64(&flushed, int64(n)) }})
+			if err != nil {
+				return
+			}
+			defer q.Close()
+			w, _ := q.Writer()
+			rep.Evaluations++
+			rep.count("drain-then-flush:runs", 1)
+			rep.nontrivial(fmt.Sprintf("drain/%d/%d/%d/%d", c.ps, c.pages, c.wbuf, c.ev))
+			fail := func(sig, format string, a ...interface{}) {
+				rep.violate(Violation{Kind: "oracle", Sig: "drain-then-flush/" + sig,
+					Detail: fmt.Sprintf("file of %d pages of %d bytes, write buffer %d, events of %d bytes: ", c.pages, c.ps, c.wbuf, c.ev) + fmt.Sprintf(format, a...),
+					Replay: map[string]interface{}{"scenario": "drain-then-flush", "page_size": c.ps, "pages": c.pages, "write_buffer": c.wbuf, "event_size": c.ev}})
+			}
+			for cycle := 0; cycle < 3; cycle++ {
+				written := 0
+				for ; written < 10000; written++ {
+					if _, err := w.Write(pqengine.Content(written, 5, c.ev)); err != nil {
+						break
+					}
+					if err := w.Next(); err != nil {
+						written++
+						break
+					}
+				}
+				rd := q.Reader()
+				n := int(atomic.LoadInt64(&flushed))
+				pend, _ := q.Pending()
+				for i := 0; i < pend; i++ {
+					if err := rd.Begin(); err != nil {
+						fail("begin", "cycle %d: Reader.Begin: %v", cycle, err)
+						return
+					}
+					sz, err := rd.Next()
+					if err != nil || sz == 0 {
+						rd.Done()
+						fail("next", "cycle %d: Reader.Next for pending event %d of %d: size %d, %v", cycle, i, pend, sz, err)
+						return
+					}
+					rd.Done()
+					if err := q.ACK(1); err != nil {
+						fail("ack-on-a-full-file", "cycle %d: ACK(1): %v", cycle, err)
+						return
+					}
+				}
+				_ = n
+				// everything that was on disk is ACKed: the space is free, the buffered events must go out now
+				if err := w.Flush(); err != nil {
+					st := txfile.VerifSnapshot(f)
+					fail("starved-after-a-complete-drain", "cycle %d: every flushed event is ACKed (Pending 0), but the buffered events can not be flushed: %v (meta area %d of %d pages, %d free data pages)",
+						cycle, err, st.MetaTotal, st.MaxPages, st.DataAvail)
+					return
+				}
+			}
+		}()
+	}
+}
+
 func runPQStress(rep *Report, r *rand.Rand, n int) {
 	// directed: reader hand-over under a pending commit
 	for i := 0; i < 3+n/20; i++ {
@@ -1026,7 +1183,7 @@ func init() {
 	register("c12", func(args []string) int {
 		f := parseFlags("c12", args)
 		rep := newReport("C12", f)
-		rep.Rule = "K1: every ACK decision (pages freed, new head page, new read id) vs. the Coq model of collectFreePages on the real page headers (theorem ack_pages_spec); fill-to-error / drain cycles on bounded files of 64-256 pages (and unbounded ones): events of 1 byte .. 3 pages (in every other run half of them sized to end within 10 bytes of the end of the write buffer, so that the implicit flush happens in Next) are appended until Write/Next/Flush reports the file full, then everything flushed is read and ACKed (partially, then completely), space accounting after every ACK: data pages held by the file <= 1 (queue header) + ceil(framed un-ACKed bytes / payload) + pages of the most recent event + 2; counters; the events buffered while the file was full must be flushed by a later call and delivered in order (slice-of-events oracle, final drain). Non-trivial: every run (distinct config, seed, traffic)."
+		rep.Rule = "directed: a fresh queue filled by one flush to every level around `data area completely used, meta area minimal`, then read and ACKed one event at a time; K1: every ACK decision (pages freed, new head page, new read id) vs. the Coq model of collectFreePages on the real page headers (theorem ack_pages_spec); fill-to-error / drain cycles on bounded files of 64-256 pages (and unbounded ones): events of 1 byte .. 3 pages (in every other run half of them sized to end within 10 bytes of the end of the write buffer, so that the implicit flush happens in Next) are appended until Write/Next/Flush reports the file full, then everything flushed is read and ACKed (partially, then completely), space accounting after every ACK: data pages held by the file <= 1 (queue header) + ceil(framed un-ACKed bytes / payload) + pages of the most recent event + 2; counters; the events buffered while the file was full must be flushed by a later call and delivered in order (slice-of-events oracle, final drain). Non-trivial: every run (distinct config, seed, traffic)."
 		m, err := model.Start()
 		if err != nil {
 			fmt.Fprintln(os.Stderr, err)
@@ -1048,6 +1205,8 @@ func init() {
 			{PageSize: 1024, MaxSize: 128 * 1024, WriteBuffer: 16 * 1024}, {PageSize: 4096, MaxSize: 512 * 1024, WriteBuffer: 0},
 			{PageSize: 1024, MaxSize: 256 * 1024, WriteBuffer: 8192}, {PageSize: 1024, MaxSize: 0, WriteBuffer: 2048},
 		}
+		c12FillLevels(rep)
+		c12DrainThenFlush(rep)
 		for i := 0; i < n; i++ {
 			hseed := r.Int63()
 			c12Cycle(rep, cfgs[i%len(cfgs)], hseed, cycles, (i/len(cfgs))%2 == 1, m)
